@@ -545,11 +545,12 @@ func (a *IPAllocator) SetAllocation(subscriberID string, prefix *net.IPNet) erro
 
 	// Clear any existing allocation for this subscriber
 	if oldIdx, exists := a.allocated[subscriberID]; exists {
-		if oldIdx != idx {
-			a.bitmap.SetBit(a.bitmap, int(oldIdx), 0)
-			delete(a.indexToSubscriber, oldIdx)
-			a.allocatedCount.Sub(a.allocatedCount, big.NewInt(1))
+		if oldIdx == idx {
+			return nil // record re-applied: nothing to change
 		}
+		a.bitmap.SetBit(a.bitmap, int(oldIdx), 0)
+		delete(a.indexToSubscriber, oldIdx)
+		a.allocatedCount.Sub(a.allocatedCount, big.NewInt(1))
 	}
 
 	// Set new allocation
